@@ -2,7 +2,7 @@
 
 use num_bigint::BigUint;
 use ruint::Uint;
-use vmon::{au, big, gen, uint, Arg, Mon};
+use vmon::{an, au, big, gen, uint, Arg, Mon};
 
 vmon::widths!(exec; 0, 1, 2, 3, 4, 7, 8, 16, 31, 32, 60, 63, 64, 65, 100, 127, 128, 129, 160, 192,
     250, 255, 256, 257, 320, 384, 512, 521, 1024, 1088, 2048, 4096);
@@ -170,15 +170,17 @@ fn exec<const B: usize, const L: usize>(m: &mut Mon, op: &str, a: &[Arg]) {
                 m.eq_uint("op-neg.r", &v, &w);
             }
         }
-        "sum" => {
-            let xs: Vec<Uint<B, L>> = a.iter().map(|x| uint(x.u())).collect();
+        "sum" | "sum_rep" => {
+            // sum_rep: (v, w, n) stands for the n terms v, w, v, w, ...
+            let terms: Vec<&[u64]> = if op == "sum_rep" { (0..a[2].us()).map(|i| a[i % 2].u()).collect() } else { a.iter().map(|x| x.u()).collect() };
+            let xs: Vec<Uint<B, L>> = terms.iter().map(|x| uint(x)).collect();
             let mut s = BigUint::default();
-            for x in a {
-                s += big::big(x.u());
+            for x in &terms {
+                s += big::big(x);
             }
             let w = big::wrap(&s, B);
-            m.nontrivial(a.len() >= 2 && a.iter().filter(|x| !gen::is_zero(x.u())).count() >= 2);
-            m.obs(|| format!("sum of {} terms = {}", a.len(), big::hex(&w)));
+            m.nontrivial(terms.len() >= 2 && terms.iter().filter(|x| !gen::is_zero(x)).count() >= 2);
+            m.obs(|| format!("sum of {} terms = {}", terms.len(), big::hex(&w)));
             if let Some(v) = m.must(|| xs.iter().copied().sum::<Uint<B, L>>()) {
                 m.eq_uint("sum.values", &v, &w);
             }
@@ -269,6 +271,16 @@ fn workload(m: &mut Mon, bits: usize) {
     }
     m.case("sum", bits, vec![]); // the empty sum is zero
     m.case("sum", bits, vec![au(&gen::max(bits))]);
+    // long sums: hundreds of carries out of every limb column (and past the 8-, 16-bit counter sizes)
+    if !m.is_light() {
+        let mut r = m.stream("c01.longsum", bits);
+        for n in [255usize, 256, 257, 258, 300, 511, 512, 513, 1025, if bits <= 512 { 65537 } else { 2049 }] {
+            m.case("sum_rep", bits, vec![au(&gen::max(bits)), au(&gen::max(bits)), an(n)]);
+            m.case("sum_rep", bits, vec![au(&gen::max(bits)), au(&gen::small(1, bits)), an(n)]);
+            m.case("sum_rep", bits, vec![au(&gen::hostile(&mut r, bits)), au(&gen::hostile(&mut r, bits)), an(n)]);
+            m.case("sum_rep", bits, vec![au(&gen::uniform(&mut r, bits)), au(&gen::alphabet(&mut r, bits)), an(n)]);
+        }
+    }
     // Carry chains: all-ones limbs in the middle, carry injected at the bottom.
     for lo in 0..n {
         for hi in lo..n {
